@@ -1709,6 +1709,42 @@ class C11(Check):
                     'full': rng.random() < 0.2}
             if i % 3 == 2:
                 spec['two_conns'] = True
+            if i % 12 == 7:
+                # structured programs that random drawing hardly produces:
+                # a RENAME that has to be refused because an inferior would
+                # land on an existing name, with destination superiors that
+                # do not exist (any more); a RENAME that fails half way
+                # because an inferior's new name is too long for the store
+                w = rng.sample(['a', 'b', 'c', 'd', 'Work', 'Sent', 'x1',
+                                'two words', 'é', 'q"x'], 5)
+                s_, p_, q_, t_, u_ = w
+                kind = rng.randrange(4)
+                if kind == 0:
+                    ops = [['CREATE', '%s/%s/%s' % (p_, q_, t_)],
+                           ['DELETE', '%s/%s' % (p_, q_)], ['DELETE', p_],
+                           ['CREATE', '%s/%s' % (s_, t_)],
+                           ['RENAME', s_, '%s/%s' % (p_, q_)]]
+                elif kind == 1:
+                    ops = [['CREATE', '%s/%s' % (s_, t_)],
+                           ['CREATE', '%s/%s/%s' % (p_, u_, t_)],
+                           ['DELETE', '%s/%s' % (p_, u_)],
+                           ['RENAME', s_, '%s/%s' % (p_, u_)],
+                           ['RENAME', s_, p_]]
+                elif kind == 2:
+                    long = 'L' * rng.choice([200, 225, 230, 236])
+                    ops = [['CREATE', s_], ['APPEND', s_],
+                           ['CREATE', '%s/%s' % (s_, long)],
+                           ['RENAME', s_, rng.choice(
+                               ['INBOX/' + 'b' * 30, 'b' * 30,
+                                p_ + '/' + 'b' * 40])],
+                           ['STATUS', 'INBOX'], ['STATUS', s_]]
+                else:
+                    ops = [['CREATE', '%s/%s' % (s_, t_)], ['APPEND', s_],
+                           ['CREATE', '%s/%s' % (p_, t_)],
+                           ['DELETE', p_], ['RENAME', s_, p_],
+                           ['STATUS', s_]]
+                spec.update({'script': 'ops', 'ops': ops, 'nsteps': 0,
+                             'full': True})
             av = sorted({sw for sw, only in avoid
                          if not only or backend in only})
             if av:
